@@ -83,7 +83,10 @@ impl C13 {
         tail.push(format!("brk(0) = {:#x}", base));
         // the area the handler created for the heap (its start may lie below the first break)
         let heap_area: Option<u64> = light_areas(&ax, None).iter().find(|a| !pre_heap.iter().any(|p| p.start == a.start && p.length == a.length)).map(|a| a.start);
-        let mut brk = base;
+        // the heap base is where the heap begins: the start of that area (the first break may lie above it)
+        let first_break = base;
+        let base = heap_area.filter(|h| *h <= first_break && first_break - *h <= 0x10_0000).unwrap_or(first_break);
+        let mut brk = first_break;
         // bytes the guest stored in [base, brk) and that stayed below the break since
         let mut known: BTreeMap<u64, u8> = BTreeMap::new();
         let mut blocker: Option<u64> = None;
